@@ -117,6 +117,10 @@ def impl(py):
     roots2 = {id(nd): i for i, nd in enumerate(nodes2)}
     fopt = {"algorithm": py["alg"], "minPos": mn, "maxPos": mx, "density": py["density"],
             "nodeSpacing": py["spacing"], "stubWidth": py["stub"]}
+    # options the caller does not pass take the ENGINE's defaults (force.DEFAULT_OPTIONS), not the
+    # distributor's own: the model call 341 is built with the engine defaults for these keys
+    for k in py.get("omit", []):
+        fopt.pop(k, None)
     prev = py.get("prev")
     if prev:
         # the engine was configured differently and used before: the layering it
@@ -146,20 +150,66 @@ def _oq(x):
     return [0] if x is None else [1] + _q(x)
 
 
+FORCE_DEFAULTS = {"algorithm": "overlap", "density": 0.85, "nodeSpacing": 3, "stubWidth": 1}   # force.py:14-21
+OMIT_KEY = {"algorithm": "alg", "density": "density", "nodeSpacing": "spacing", "stubWidth": "stub"}
+
+
 def _model_calls(py):
     mn, mx = py["min"], py["max"]
     lw = (mx - mn) if (mn is not None and mx is not None) else None
     a = ALGS.index(py["alg"])
     tail = _q(py["density"]) + _q(py["spacing"]) + _q(py["stub"]) + [len(py["labels"])]
+    labs = []
     for p, w in py["labels"]:
-        tail += _q(p) + _q(w)
+        labs += _q(p) + _q(w)
+    tail += labs
+    eff = dict(py)
+    for k in py.get("omit", []):
+        eff[OMIT_KEY[k]] = FORCE_DEFAULTS[k]
+    ftail = _q(eff["density"]) + _q(eff["spacing"]) + _q(eff["stub"]) + [len(py["labels"])] + labs
     return [[340, a] + _oq(lw) + tail,
-            [341, a] + _oq(mn) + _oq(mx) + tail,
+            [341, ALGS.index(eff["alg"])] + _oq(mn) + _oq(mx) + ftail,
             [342, a] + _oq(lw) + tail]
 
 
+def _density_float_safe(py):
+    import math
+    mn, mx = py["min"], py["max"]
+    if mn is None or mx is None:
+        return True
+    lw = mx - mn
+    if not lw:
+        return True
+    if any(F(w) * 8 != int(F(w) * 8) for _, w in py["labels"]) or F(py["spacing"]) * 8 != int(F(py["spacing"]) * 8) \
+            or F(py["stub"]) * 8 != int(F(py["stub"]) * 8):
+        return False
+    mw_f = py["density"] * lw
+    mw_e = F(py["density"]) * F(lw)
+    if math.floor(8 * F(mw_f)) != math.floor(8 * mw_e):
+        return False
+    need = _total(py["labels"], py["spacing"])
+    ratio = need / mw_e if mw_e else F(0)
+    if min(ratio - math.floor(ratio), math.ceil(ratio) - ratio) < F(1, 10 ** 9) and F(mw_f) != mw_e:
+        return False
+    return True
+
+
 def _maybe_prev(rng, py):
-    """30 % of the cases: the engine ran under another configuration first"""
+    """30 % of the cases: the engine ran under another configuration first;
+    20 % of the others: the caller leaves some engine options to their defaults"""
+    if rng.random() < 0.2:
+        py = dict(py)
+        py["omit"] = sorted(rng.sample(["algorithm", "density", "nodeSpacing", "stubWidth"], rng.randrange(1, 4)))
+        for k in py["omit"]:
+            # the case's own value becomes the engine default, so that the direct Distributor call
+            # (explicit values) and the engine (key not passed) must agree
+            py[OMIT_KEY[k]] = FORCE_DEFAULTS[k]
+        if "density" in py["omit"] and not _density_float_safe(py):
+            # 0.85 * layerWidth is rounded in the code: keep only configurations where that
+            # rounding cannot change a comparison (same rule as the float_density family)
+            py["omit"] = [k for k in py["omit"] if k != "density"]
+            py["density"] = 0.75
+        return py
     if rng.random() < 0.3:
         span = max([p for p, _ in py["labels"]] + [100])
         py = dict(py)
